@@ -27,7 +27,7 @@ def run(ck: vlib.Check):
     ck.rule = ("random sequences of 1..3 editor operations (add triggers with new / existing objects, upsert unit "
                "settings, save+reload) on the scx fixture and synthetic bases, incl. nearly full slot tables; the saved "
                "bytes are compared slot by slot, string id by string id and trigger by trigger with the save of the "
-               "UNEDITED map by an independent reader; sections no edit concerns must be byte-identical. Implementation "
+               "UNEDITED map by an independent reader; sections no edit concerns must be byte-identical; a bare-number reference to a named switch under 8 (32) string-hash seeds. Implementation "
                "vs extracted pipeline model byte for byte. Distinct = distinct (base, operation sequence).")
     drv_ok = RC.build_rich(ck, ["proofs/C07_proofs.vo"], "props/C07.v")
     rng = ck.rng
@@ -80,6 +80,21 @@ def run(ck: vlib.Check):
         if bad:
             ck.violation(f"{label}: {bad}", {"kind": "frozen", "label": label, "base_hex": base.hex(), "spec": spec,
                                              "detail": bad}, True)
+    # a new trigger that refers to an existing NAMED switch by its number alone, under several string-hash seeds (the
+    # rebuilder gathers switches in a set: which of two objects with one index is met last depends on the seed)
+    import c14
+    raw = (vlib.REPO / "test/resources/test-chkjson-scx.chk").read_bytes()
+    v0 = SC.SpecView(raw)
+    k0 = next(i for i in range(256) if v0.switch(i)[1])
+    for h in range(8 if ck.tier == "quick" else 32):
+        o = c14.one(1, h, h, script=c14.F18)
+        ck.evaluations += 1
+        ck.note_case(f"bare-switch-reference:hashseed{h}")
+        if o.get("switch") != k0 or o.get("name") != v0.switch(k0)[1]:
+            ck.violation(f"a new trigger refers to the existing switch {k0} ({v0.switch(k0)[1]!r}) by number only: under "
+                         f"PYTHONHASHSEED={h} the saved map names that switch {o.get('name')!r} ({o})",
+                         {"kind": "bare-switch-reference", "hashseed": h, "switch": k0, "observed": o}, True)
+            break
     known, _ = vlib.load_known_findings(PROP)
     for f in known:
         if f["key"] == "split-trig-sections":
@@ -105,6 +120,14 @@ def replay(path: str) -> int:
         r, resave = A.run_impl_with_base(base, rp["spec"])
         bad = resave != RC.impl_load_save(base)
         print("still failing" if bad else "no longer failing")
+        return 1 if bad else 0
+    if rp.get("kind") == "bare-switch-reference":
+        import c14
+        raw = (vlib.REPO / "test/resources/test-chkjson-scx.chk").read_bytes()
+        want = SC.SpecView(raw).switch(rp["switch"])[1]
+        o = c14.one(1, rp["hashseed"], rp["hashseed"], script=c14.F18)
+        bad = o.get("name") != want
+        print(f"still failing: {o}" if bad else "no longer failing")
         return 1 if bad else 0
     if rp.get("kind") == "frozen":
         base = bytes.fromhex(rp["base_hex"])
